@@ -1101,7 +1101,10 @@ class Engine:
                 leaves.append(s)
                 self.stats['paths'] += 1
                 if len(leaves) > self.max_paths:
-                    raise Unsupported('more than %d paths' % self.max_paths)
+                    import collections
+                    cnt = collections.Counter(l.status for l in leaves)
+                    msgs = collections.Counter((o.kind, str(o.msg)[:90]) for l in leaves[-300:] for o in l.oblig[-1:])
+                    raise Unsupported('more than %d paths; statuses %s; last obligations %s' % (self.max_paths, dict(cnt), msgs.most_common(3)))
         return parked
 
     def join_for(self, site):
@@ -1139,6 +1142,15 @@ class Engine:
                    tuple(sorted(s.tls_inst.items())))
             buckets.setdefault(sig, []).append(s)
         out = []
+        if len(buckets) > 1 and os.environ.get('IRSYM_DEBUG'):
+            sigs = list(buckets)
+            diff = [i for i in range(len(sigs[0])) if any(sg[i] != sigs[0][i] for sg in sigs[1:])]
+            self.stats['unmerged'] = self.stats.get('unmerged', 0) + 1
+            if self.stats['unmerged'] <= 5:
+                a_, b_ = sigs[0], sigs[1]
+                for i in diff:
+                    da = set(a_[i]) ^ set(b_[i]) if isinstance(a_[i], tuple) else (a_[i], b_[i])
+                    print('   UNMERGED: signature component', i, 'differs:', str(da)[:300], flush=True)
         for sig, states in buckets.items():
             if len(states) == 1:
                 out.append(states[0])
@@ -1380,7 +1392,8 @@ class Engine:
             fr.visits[label] = (n, st.nforks, sym)
             lb = self.loop_bound
             if sym > lb and self.loop_bound_overrides:
-                where = self.loc(ins)
+                frames_ = self.loc(ins).split(' <- ')
+                where = next((f_ for f_ in frames_ if not f_.startswith('library/')), frames_[0])
                 for pat, b_ in self.loop_bound_overrides:
                     if pat in where:
                         lb = b_
